@@ -16,11 +16,33 @@ class Suspend:
         yield
 
 
-# every attribute / item name the generated templates use on probes; other
-# names (engine-internal feature probing such as ``jinja_pass_arg``, ``__html__``,
-# ``__aiter__``) are answered with AttributeError and are not data events
+# every attribute / item name the generated templates use on probes ("attr" events of
+# PRec.__getattr__).  Every OTHER attribute name looked up on a probe instance while a run
+# is in progress is a lookup the ENGINE (or a library / interpreter protocol it invokes:
+# hasattr / getattr feature probing such as ``jinja_pass_arg``, ``__html__``, ``__aiter__``,
+# ``__call__``, ``unsafe_callable``, ``alters_data``, isinstance()'s ``__class__``) makes
+# on the data object: an event "probe:<name>" of its own (Watched.__getattribute__).
 TEMPLATE_NAMES = frozenset(
     "a b c d f k n name grp sub lst missing zzz items_list".split())
+
+
+class Watched:
+    """Base of every probe class: attribute access by name on the INSTANCE is a
+    data event ("probe:<name>") at which the run's private exception can be raised, then
+    answered the ordinary way (found -> value, else __getattr__ / AttributeError).
+    Not events: the probe's own state (single-underscore names), the names the templates
+    themselves read (TEMPLATE_NAMES: "attr" events of PRec.__getattr__) and the implicit
+    special-method lookups of the interpreter (str(), iter(), calls ...: they are made on
+    the type and have their own events)."""
+
+    _cap = False    # True: only ever the subject of capability tests
+
+    def __getattribute__(self, name):
+        if (name[:1] == "_" and name[:2] != "__") or name in TEMPLATE_NAMES:
+            return object.__getattribute__(self, name)
+        object.__getattribute__(self, "_ev").hit(
+            "probe:" + name, object.__getattribute__(self, "_cap"))
+        return object.__getattribute__(self, name)
 
 
 class Events:
@@ -68,7 +90,7 @@ class EvProxy:
             self.cur.hit(kind, cap)
 
 
-class PRec:
+class PRec(Watched):
     """Record: attributes, items, str()."""
 
     def __init__(self, ev, fields, items, s):
@@ -102,7 +124,7 @@ class PHtml(PRec):
         return "<i>%s</i>" % self._s
 
 
-class PStr:
+class PStr(Watched):
     def __init__(self, ev, s):
         self._ev, self._s = ev, s
 
@@ -114,7 +136,7 @@ class PStr:
         return "<PStr %s>" % self._s
 
 
-class PFmt:
+class PFmt(Watched):
     """String conversion through the format protocol: ``'{}'.format(p)`` /
     ``format(p)`` hit __format__, ``'%s' % p`` / ``str(p)`` hit __str__."""
 
@@ -133,7 +155,7 @@ class PFmt:
         return "<PFmt %s>" % self._s
 
 
-class PLazy:
+class PLazy(Watched):
     """A lazily translated message as returned by the gettext callables of
     several frameworks: not a str; supports ``%`` and str()."""
 
@@ -177,7 +199,7 @@ def make_gettext(ev, lazy):
     return gettext, ngettext, pgettext, npgettext
 
 
-class PCall:
+class PCall(Watched):
     def __init__(self, ev, result):
         self._ev, self._result = ev, result
 
@@ -202,7 +224,7 @@ class PACall(PCall):
         return self._result
 
 
-class _It:
+class _It(Watched):
     def __init__(self, ev, values):
         self._ev, self._it = ev, iter(values)
 
@@ -214,7 +236,7 @@ class _It:
         return next(self._it)
 
 
-class PIter:
+class PIter(Watched):
     """Re-iterable: every iteration is a fresh iterator over the same values."""
 
     def __init__(self, ev, values):
@@ -234,7 +256,7 @@ class PIterLen(PIter):
         return len(self._values)
 
 
-class _AIt:
+class _AIt(Watched):
     def __init__(self, ev, values):
         self._ev, self._it = ev, iter(values)
 
@@ -250,7 +272,7 @@ class _AIt:
             raise StopAsyncIteration from None
 
 
-class PAIter:
+class PAIter(Watched):
     def __init__(self, ev, values):
         self._ev, self._values = ev, list(values)
 
@@ -262,7 +284,7 @@ class PAIter:
         return "<PAIter>"
 
 
-class PBool:
+class PBool(Watched):
     def __init__(self, ev, value):
         self._ev, self._value = ev, value
 
@@ -274,10 +296,12 @@ class PBool:
         return "<PBool>"
 
 
-class PCap:
+class PCap(Watched):
     """Only ever used as the subject of capability tests (``is sequence`` ...);
     its events are flagged so the oracle can apply the documented exception
     ("capability tests report false")."""
+
+    _cap = True
 
     def __init__(self, ev, values):
         self._ev, self._values = ev, list(values)
@@ -294,8 +318,10 @@ class PCap:
         return "<PCap>"
 
 
-class PCapIter:
+class PCapIter(Watched):
     """Subject of ``is iterable`` only (flagged like PCap)."""
+
+    _cap = True
 
     def __init__(self, ev, values):
         self._ev, self._values = ev, list(values)
